@@ -639,6 +639,48 @@ def prim_trace(ctx, fams, parts=4, what="primitive / table event", engines=None)
     return r
 
 
+def shards_component(ctx):
+    """Shards.tla: the working-space views and XOR helpers every transform is built on (public engine interface).
+    spec -> implementation -> spec: TLC enumerates every history of legal calls on a palette of buffer shapes
+    (checking frame, nesting and closure properties on the way) and prints them as scripts; the harness replays them on the
+    real ShardsRefMut / utils::xor / utils::xor_within and records every chunk of the buffer after every call;
+    Trace_Shards validates the recording against the same actions.  Seeded random walks add larger shapes."""
+    cfgs = ["MC_Shards_2.cfg"] + (["MC_Shards_8.cfg"] if ctx.thorough else [])
+    scripts = ctx.path("shards_scripts.ndjson")
+    n = 0
+    with open(scripts, "w") as f:
+        for cfg in cfgs:
+            res = tlc_run("MC_Shards", cfg, workers=4, timeout=1800, tag="MC_Shards_" + ctx.prop)
+            if not res["ok"]:
+                raise ToolError("MC_Shards %s violated %s on its own:\n%s" % (cfg, res["violated"], res["out"][-3000:]))
+            res2 = dict(res)
+            ctx.add_model("MC_Shards/" + cfg, res2)
+            for line in res["out"].splitlines():
+                if line.startswith('<<"SCRIPT", "'):
+                    f.write(json.loads(line[len('<<"SCRIPT", '):-2]) + "\n")
+                    n += 1
+    trace = ctx.path("shards_trace.ndjson")
+    rc, info, out = harness(["shards", "--scripts", scripts, "--every", 1 if ctx.thorough else 6, "--walks", 4000 if ctx.thorough else 400,
+                             "--steps", 30, "--out", trace, "--seed", ctx.seed])
+    ctx.evaluations += info["events"]
+    r = tlc_trace_seq_parts("Trace_Shards", "Trace_Shards.cfg", trace, parts=8 if ctx.thorough else 4)
+    ctx.states += r["states"]
+    ctx.transitions += r["transitions"]
+    log("[trace] %s: %d scripts of %d from TLC + walks, %d events, accepted=%s (%.1fs)" % (
+        os.path.basename(trace), info["scripts"], n, r["events"], r["accepted"], r["wall"]))
+    ctx.extra["shards"] = {"tlc_scripts": n, "replayed_histories": info["scripts"], "events": r["events"]}
+    if r["accepted"]:
+        ctx.traces += info["scripts"]
+    for (text, at, line) in r["rejected"]:
+        p = save_replay(ctx.prop, "violation-shards-%d.ndjson" % (len(ctx.violations) + 1), text)
+        try:
+            ev = json.loads(line)
+        except Exception:
+            ev = {}
+        brief = {k: v for k, v in ev.items() if not isinstance(v, (list, dict))}
+        ctx.violation("working-space call rejected by Trace_Shards (event %d of the history): %s" % (at, json.dumps(brief)), p, brief)
+
+
 def check_C15(ctx):
     ctx.rule = ("(1) MC_Field: field axioms, table contracts and linear shortcuts on small fields; (2) ALL entries of the crate's Exp, Log, Skew and LogWalsh tables "
                 "and sampled multipliers of Mul16/Mul128 validated by TLC against GF.tla/LCH.tla built from the field polynomial and Cantor basis; (3) mul on probe "
@@ -653,6 +695,7 @@ def check_C15(ctx):
     for b in ([2, 4] if not ctx.thorough else [2, 3, 4, 5, 6, 8]):
         model_must_hold(ctx, "MC_Field", "MC_Field_%d.cfg" % b)
     prim_models(ctx)
+    shards_component(ctx)
     prim_trace(ctx, "tables,mul,xf,impulse,evalpoly", parts=6 if not ctx.thorough else 10)
     if ctx.thorough:
         rc, info, out = harness(["prims", "--family", "mulx", "--out", ctx.path("x"), "--seed", ctx.seed], timeout=7200)
